@@ -108,6 +108,12 @@ class Fn:
     def return_blocks(self):
         return [i for i, b in enumerate(self.blocks) if b["term"]["k"] == "return"]
 
+    def prov(self, bb):
+        """(function id, block index) this block had before virtual inlining: facts computed per original body (lock sites,
+        effects) are looked up under this key"""
+        fr = self.blocks[bb].get("from")
+        return (fr[0], fr[1]) if fr else (self.id, bb)
+
     def error_blocks(self):
         """blocks on which the function is committed to returning Err: `?` residual conversion or `_0 = Err(..)`; in a body with
         virtually inlined helpers also the helpers' own error exits when the helper's Result is handed on by the caller"""
@@ -541,7 +547,9 @@ def inline_private_helpers(F, fn, depth=2, max_blocks=4000):
             g = F.fns.get(cid) if cid else None
             if g is None or not g.blocks or g.id == fn.id or g.kind not in ("method", "fn"):
                 continue
-            if (g.j.get("self_ty") or "").split("<")[0] != base_ty or g.j.get("trait") or g.j.get("in_trait"):
+            same_type = (g.j.get("self_ty") or "").split("<")[0] == base_ty
+            same_file_free_fn = not g.j.get("self_ty") and g.kind == "fn" and g.loc.get("f") == fn.loc.get("f")
+            if not (same_type or same_file_free_fn) or g.j.get("trait") or g.j.get("in_trait"):
                 continue
             if (g.j.get("vis") or "") == "Public" or (g.j.get("method") or g.name.split("::")[-1]) in anchors:
                 continue
@@ -565,8 +573,9 @@ def inline_private_helpers(F, fn, depth=2, max_blocks=4000):
                         propagated = True
             if propagated:
                 j.setdefault("ret_locals", []).append(off_l)
-            for gb in g.j["mir"]["blocks"]:
-                nb = {"stmts": [_shift(s, off_l, off_b) for s in gb["stmts"]], "term": _shift_term(gb["term"], off_l, off_b)}
+            for gbi, gb in enumerate(g.j["mir"]["blocks"]):
+                nb = {"stmts": [_shift(s, off_l, off_b) for s in gb["stmts"]], "term": _shift_term(gb["term"], off_l, off_b),
+                      "from": gb.get("from") or [g.id, gbi]}
                 if gb.get("cleanup"):
                     nb["cleanup"] = True
                 if gb["term"]["k"] == "return":
